@@ -3,5 +3,5 @@ Require Extraction.
 Require Import ExtrOcamlBasic.
 Extraction Language OCaml.
 Extraction "../ocaml/c19/model.ml" util_add util_mul util_divmod
-  w_init w_init_rl isize step el_first el_last el_term el_get_entries el_to_save el_to_apply el_has_to_apply last_update
+  w_init w_init_rl w_init_opt st_remove_to lr_set_range isize step el_first el_last el_term el_get_entries el_to_save el_to_apply el_has_to_apply last_update
   c19_z_anchor sp_init sp_step wf_op sp_first sp_last sp_term sp_entries sp_to_save sp_to_apply sp_has_to_apply.
